@@ -281,3 +281,23 @@ pub fn zo_emit(cx: &mut Ctx, cj: Value, strings: &[String], probes: &[String]) {
         Err(p) => cx.sum.fail("ZoSortedStrVec", None, cj, &format!("panicked: {}", p)),
     }
 }
+
+static N_CMPK: AtomicUsize = AtomicUsize::new(0);
+/// SortableStrVec::fast_lexicographic_cmp through the hook: oracle (= slice order) on every call, a sample to the model
+pub fn cmpk_emit(cx: &mut Ctx, a: &[u8], bb: &[u8]) {
+    let cell = "SortableStrVec_core";
+    let cj = json!({"cell": "cmpk", "a": a, "b": bb});
+    cx.sum.eval(cell, &format!("cmpk {:?} {:?}", a, bb), a.len() >= 2 && bb.len() >= 2);
+    match guarded(|| (zipora::SortableStrVec::verif_fast_lexicographic_cmp(a, bb), zipora::SortableStrVec::verif_fast_lexicographic_cmp(bb, a))) {
+        Err(p) => cx.sum.fail(cell, None, cj, &format!("panicked: {}", p)),
+        Ok((o, r)) => {
+            if o != a.cmp(bb) || r != bb.cmp(a) {
+                cx.sum.fail(cell, None, cj.clone(), &format!("fast_lexicographic_cmp = {:?} / {:?} (swapped), unsigned byte order says {:?} / {:?}", o, r, a.cmp(bb), bb.cmp(a)));
+            }
+            if (a.len() >= 8 || N_CMPK.load(AO::Relaxed) % 4 == 0) && room(&N_CMPK, 250) {
+                let code = |x: Ordering| match x { Ordering::Less => -1, Ordering::Equal => 0, Ordering::Greater => 1 };
+                cx.shards.push(format!("(XCmpK {} {} ({})%Z)%N", more::coq_bl(a), more::coq_bl(bb), code(o)), cj);
+            } else { N_CMPK.fetch_add(1, AO::Relaxed); }
+        }
+    }
+}
